@@ -22,10 +22,10 @@ PROPS["C10"] = dict(
          "optionally close all; classes remove_pinned_with_open_iterators_ge_N / _multiple_of_256 / _multiple_of_65536 count the Removes of a pinned entry by the number of iterators open at that moment. One case in four is a LONG PINNED RUN: op 'pinrun' = n rounds of "
          "[Add(k); NewIterator; Next until it stands in front of the new entry; HasNext; Remove(k)], which leaves n consecutive removed entries each pinned by its own iterator (n = 65..1500, thorough 4000; optionally a few live entries in front), followed by First / re-add and scan / the mutations, and the read-out, "
          "in which the oldest iterators step over the whole run in one call (classes run_of_pinned_removed_entries_ge_N). "
-         "Unit lowstack: the same long-pinned-run cases with n = 8000..12000 (thorough 10000..30000) in a process of its own whose goroutine stack limit is lowered to 256 KiB (runtime/debug.SetMaxStack; the default is 1 GB): 'never panics for every history' is read as covering a call "
+         "Unit lowstack: the same long-pinned-run cases with n = 8000..12000 (thorough 10000..20000) in a process of its own whose goroutine stack limit is lowered to 256 KiB (runtime/debug.SetMaxStack; the default is 1 GB): 'never panics for every history' is read as covering a call "
          "whose stack use grows with the length of the run - at the default limit that needs about 10^7 entries, which no affordable history reaches, an application may lower the limit, and the unchanged map steps over the run in a loop (it passes the same cases with a 16 KiB limit). "
          "A stack overflow is fatal and unrecoverable: the process dies, the driver reports process-crash, and the case in flight is left behind as replay file TestC10LowStack-inflight-seed<N>.json (TestReplay lowers the limit again for it). A case in which a call of the map does not return (5 s of process CPU time burnt "
-         "by one case; a case costs milliseconds) is reported as map:hang by a watchdog. Every case ends "
+         "by one case; a case costs milliseconds; a case that allows N > 64 open iterators costs up to N^2 list steps by design and gets 5 s x (1 + N/2048, at most 16)) is reported as map:hang by a watchdog. Every case ends "
          "with closing the iterators still open, then First/Len/Get and a fresh full iteration. Excluded by the documented "
          "precondition of Close: using an iterator after Close, closing it twice. non-trivial = the case closes or advances an iterator "
          "that is parked on a removed entry, or removes the oldest live entry while an iterator is parked on it, or re-adds a removed "
@@ -41,7 +41,7 @@ PROPS["C10"] = dict(
     units=[
         dict(name="exhaustive", run="^TestC10Exhaustive$", shards=(8, 16), timeout=(120, 1500)),
         dict(name="rapid", run="^TestC10Rapid$", checks=(20000, 200000), shards=(2, 16), timeout=(120, 1500)),
-        dict(name="manyiters", run="^TestC10ManyIterators$", checks=(150, 1500), shards=(2, 8), timeout=(120, 900)),
+        dict(name="manyiters", run="^TestC10ManyIterators$", checks=(150, 600), shards=(2, 8), timeout=(120, 900)),
         # lowers the goroutine stack limit of its process (runtime/debug.SetMaxStack): a unit and a process of its own
         dict(name="lowstack", run="^TestC10LowStack$", checks=(3, 10), shards=(1, 2), timeout=(120, 900)),
     ],
@@ -50,7 +50,7 @@ PROPS["C10"] = dict(
 LEVEL_TEXT["C10"] = (
     "Generated-input search with an exact oracle: every history over the full op alphabet up to a depth bound for 2 keys / 2 iterators "
     "and 3 keys / 3 iterators (run through its canonical representative), plus random long histories (up to 400 ops incl. bulk ops, up to 5000 keys, "
-    "up to 24 simultaneously open iterators, big fills and drains, growth-then-shrink phases, re-added keys; a separate family with 255..131074 simultaneously open iterators on a small map and with runs of up to 30000 removed entries each pinned by its own iterator, the longest ones under a lowered stack limit) are compared call by call with a sequence-number model of the ordered map, and "
+    "up to 24 simultaneously open iterators, big fills and drains, growth-then-shrink phases, re-added keys; a separate family with 255..131074 simultaneously open iterators on a small map and with runs of up to 20000 removed entries each pinned by its own iterator, the longest ones under a lowered stack limit) are compared call by call with a sequence-number model of the ordered map, and "
     "every case is finished by closing all iterators and using the map again. No counterexample among the cases counted in the "
     "evidence; not a proof for longer histories or larger maps."
 )
